@@ -156,6 +156,16 @@ class PositiveScalarAngle(RegionAttribute):
                              'scalar angle')
 
 
+class TextString(RegionAttribute):
+    """
+    Descriptor class to check that value is a string.
+    """
+
+    def _validate(self, value):
+        if not isinstance(value, str):
+            raise ValueError(f'{self.name!r} must be a string')
+
+
 class RegionType(RegionAttribute):
     """
     Descriptor class to check the region type of value.
